@@ -15,6 +15,12 @@ func (cs ClientState) ExportMetadata(store sdk.KVStore) []exported.GenesisMetada
 		gm = append(gm, clienttypes.NewGenesisMetadata(key, val))
 		return false
 	})
+	// the iteration keys, used to find the oldest consensus state for pruning, are client metadata as well
+	iterator := sdk.KVStorePrefixIterator(store, []byte(KeyIterateConsensusStatePrefix))
+	defer iterator.Close()
+	for ; iterator.Valid(); iterator.Next() {
+		gm = append(gm, clienttypes.NewGenesisMetadata(iterator.Key(), iterator.Value()))
+	}
 	if len(gm) == 0 {
 		return nil
 	}
